@@ -38,8 +38,13 @@ def run_query(q):
     op = q["op"]
     if op == "regex":
         charset = set(q["charset"])
+        for p in q.get("before", []):   # earlier conversions that were handed the very same set object
+            try:
+                interegular_to_wfsa(p, charset=charset)
+            except Exception:  # noqa
+                pass
         m = interegular_to_wfsa(q["pattern"], charset=charset)
-        out = {"fsm": fsm_json(q["pattern"])}
+        out = {"fsm": fsm_json(q["pattern"]), "charset_after": sorted(charset)}
         out["wfsa"] = {"init": [[repr(s), enc(w)] for s, w in m.I], "final": [[repr(s), enc(w)] for s, w in m.F],
                        "arcs": [[repr(i), a, repr(j), enc(w)] for i, a, j, w in m.arcs()]}
         out["values"] = [enc(m(tuple(s))) for s in q["strings"]]
